@@ -528,6 +528,32 @@ fn run_cache_case(c: &Case) -> Result<(), String> {
         let c = &Case { input: format!("{}{}", c.input, extra), ..c.clone() };
         for op in &c.ops {
             let v = match op { Op::SetMode(v) => *v, _ => 0 };
+            if v == 17 {
+                // the two cached entry points against each other: a one-mode configuration named BODY with the patterns numbered 0..n through ScannerBuilder::build, then
+                // the same pattern texts through add_patterns (SimpleScannerBuilder::build: one mode INITIAL, token type = index); each against its uncached twin
+                let texts: Vec<String> = c.modes[0].pats.iter().map(|p| p.p.clone()).collect();
+                let body = vec![ModeSpec { name: "BODY".into(), pats: texts.iter().enumerate().map(|(i, t)| PatSpec { p: t.clone(), tt: i, la: None }).collect(), trans: vec![] }];
+                let mut initial = body.clone();
+                initial[0].name = "INITIAL".into();
+                let a = ScannerBuilder::new().add_scanner_modes(&to_modes(&body)).build();
+                let b = ScannerBuilder::new().add_scanner_modes(&to_modes(&body)).build_uncached();
+                let s1 = ScannerBuilder::new().add_patterns(texts.clone()).build();
+                let s2 = ScannerBuilder::new().add_scanner_modes(&to_modes(&initial)).build_uncached();
+                for (what, x, y) in [("ScannerBuilder::build of one mode BODY", a, b), ("add_patterns(..).build()", s1, s2)] {
+                    match (x, y) {
+                        (Err(_), Err(_)) => {}
+                        (Ok(x), Ok(y)) => {
+                            let (sx, sy) = (stream_of(&x, &c.input), stream_of(&y, &c.input));
+                            if sx != sy { return Err(format!("variant 17, {}: cached scanner yields {:?}, the uncached one {:?}", what, sx, sy)); }
+                            for i in 0..2 {
+                                if x.mode_name(i) != y.mode_name(i) { return Err(format!("variant 17, {}: mode_name({}) = {:?} through the cache, {:?} without", what, i, x.mode_name(i), y.mode_name(i))); }
+                            }
+                        }
+                        (x, y) => return Err(format!("variant 17, {}: cached is_ok={}, uncached is_ok={}", what, x.is_ok(), y.is_ok())),
+                    }
+                }
+                continue;
+            }
             let Some(cfg) = variant(&c.modes, v) else { continue };
             let ms = to_modes(&cfg);
             let cached = ScannerBuilder::new().add_scanner_modes(&ms).build();
@@ -1296,7 +1322,7 @@ fn gen_case(family: &str, r: &mut Rng) -> Case {
             pats2.push(PatSpec { p: uniq, tt: 91, la: None });
             let input = gen_input(r, 7);
             let nops = 2 + r.below(5);
-            let mut ops: Vec<Op> = (0..nops).map(|_| Op::SetMode(r.below(16))).collect();
+            let mut ops: Vec<Op> = (0..nops).map(|_| Op::SetMode(if r.below(8) == 0 { 17 } else { r.below(16) })).collect();
             if r.below(2) == 0 { ops.insert(0, Op::SetMode(0)); ops.insert(0, Op::SetMode(9)); }
             if r.below(3) == 0 { ops.insert(0, Op::SetMode(15)); ops.insert(0, Op::SetMode(0)); }
             if !CACHE_FLOODED.swap(true, std::sync::atomic::Ordering::SeqCst) {
